@@ -191,6 +191,7 @@ def run(ctx):
         pk = P.read_package(data)
         k0 = files.index(f)
         muts = MUTATIONS if not ctx.quick else [MUTATIONS[(2 * k0) % len(MUTATIONS)], MUTATIONS[(2 * k0 + 1) % len(MUTATIONS)]]
+        if ctx.quick and 'empty-media-types' not in muts and any(p_.startswith('Pictures/') for p_, _ in (pk['manifest'] or [])): muts = muts + ['empty-media-types']
         for how in muts:
             md = mutate(pk, ctx.rng, how)
             if md is None: ctx.bump('mutation-not-applicable'); continue
